@@ -382,16 +382,17 @@ def submit_one(mgr, x):
     t = x.spec
     extra = dict(t.get('extra_args') or {})
     subs = None if ('subs' in t and t['subs'] is None) else x.subs
+    bucket = t.get('bucket', BUCKET)  # e.g. an S3 Object Lambda access-point ARN, which the manager rejects at call time
     try:
         if x.kind == 'upload':
-            x.future = mgr.upload(x.src, BUCKET, x.key, extra_args=extra or None, subscribers=subs)
+            x.future = mgr.upload(x.src, bucket, x.key, extra_args=extra or None, subscribers=subs)
         elif x.kind == 'download':
-            x.future = mgr.download(BUCKET, x.key, x.dest, extra_args=extra or None, subscribers=subs)
+            x.future = mgr.download(bucket, x.key, x.dest, extra_args=extra or None, subscribers=subs)
         elif x.kind == 'copy':
-            x.future = mgr.copy({'Bucket': SRC_BUCKET, 'Key': 'src-' + x.key}, BUCKET, x.key,
+            x.future = mgr.copy({'Bucket': SRC_BUCKET, 'Key': 'src-' + x.key}, bucket, x.key,
                                 extra_args=extra or None, subscribers=subs)
         elif x.kind == 'delete':
-            x.future = mgr.delete(BUCKET, x.key, extra_args=extra or None, subscribers=subs)
+            x.future = mgr.delete(bucket, x.key, extra_args=extra or None, subscribers=subs)
     except BaseException as e:  # noqa
         x.submit_exc = e
 
